@@ -1,11 +1,17 @@
 (* C09 — drain removes exactly the requested range and keeps the rest in
-   order: for every capacity (0 included), layout, range bounds and script,
-   [exec (ODrain sb eb script false)] (create, run script, drop) yields the
+   order: for every capacity (0 included), layout, range-bounds form and script,
+   [exec (ODrain sb eb script false)] (create, run the script, drop) yields the
    window of [abs s] consumed from both ends with exact len, leaves
    firstn a ++ skipn b, and destroys exactly the un-yielded drained elements,
-   once each, in order (see spec_step in theories/Spec.v). *)
-From CB Require Import Spec.
-From CBP Require Import RefDefs DrainP.
-Theorem C09_drain_drop : forall sb eb script, refines_op (ODrain sb eb script false).
-Proof. exact drain_drop_op. Qed.
+   once each, in order.
+   This file only pins statements; proofs are in coq/proofs/. *)
+From CB Require Import Spec Unstable.
+From Coq Require Import Permutation.
+From CBP Require Import Step RefDefs C02Lemmas Arith AbsLemmas AllOps FaultDefs FaultPrims FaultDropA FaultDropB FaultUser
+     Iters DrainP ExtendIo CmpHash Ctors PhysMoves UnstableEq Access Views RefTruncate FillExtend.
+
+
+Theorem C09_drain_drop :
+  forall sb eb script, refines_op (ODrain sb eb script false).
+Proof. exact (drain_drop_op). Qed.
 Print Assumptions C09_drain_drop.
